@@ -230,6 +230,10 @@ func (mbs *metadataPartStorage) createRangeReader(ctx context.Context, tx databa
 		globalEnd = *endByte
 	}
 	if globalStart >= globalEnd {
+		// The implicit whole-object range of a zero-length object is empty but valid.
+		if startByte == nil && endByte == nil && object.Size == 0 {
+			return io.NopCloser(bytes.NewReader(nil)), nil
+		}
 		return nil, storage.ErrInvalidRange
 	}
 
